@@ -80,11 +80,14 @@ struct WalkCtx {
     int stop_val;
     bool overflow;
 };
+// a visitor may itself traverse (a read-only walk of the same tree from inside a visit): the outer walk must be unaffected
+struct Nest { void (*run)(); size_t at; bool done; WalkCtx *outer; } g_nest;
 int walk_cb(const void *e, cstl_bintree_visit_order_t ord, void *p)
 {
     WalkCtx *c = (WalkCtx *)p;
     if (c->v.size() >= c->limit) { c->overflow = true; return 77; }
     c->v.push_back({(const Elem *)e, (int)ord});
+    if (g_nest.run && !g_nest.done && g_nest.outer == c && c->v.size() == g_nest.at) { g_nest.done = true; g_nest.run(); }
     if (c->stop_at && c->v.size() == c->stop_at) return c->stop_val;
     return 0;
 }
@@ -112,6 +115,8 @@ struct Tree {
         fresh_clear(liveset);
         n = 0;
         next_id = 0;
+        memset(&rt, 0xA5, sizeof rt);      // init must set every field itself
+        memset(&bt, 0xA5, sizeof bt);
         if (rb) cstl_rbtree_init(&rt, cmp_cb, &g_priv_token, offsetof(Elem, rn));
         else cstl_bintree_init(&bt, cmp_cb, &g_priv_token, offsetof(Elem, bn));
     }
@@ -189,8 +194,26 @@ typedef std::vector<long> Obs;
 void check_walk(Tree &t, int dir, Obs *obs)
 {
     WalkCtx wc{{}, 3 * t.n + 4, 0, 0, false};
+    // every other forward audit: one visit of the walk starts a complete walk in the other direction of the same tree
+    static Tree *nt; static WalkCtx inner; static int inner_rv, inner_dir;
+    bool nested = dir == CSTL_BINTREE_FOREACH_DIR_FWD && t.n >= 2 && t.n <= 2000 && (t.n & 1);
+    if (nested) {
+        nt = &t;
+        inner = WalkCtx{{}, 3 * t.n + 4, 0, 0, false};
+        inner_dir = CSTL_BINTREE_FOREACH_DIR_REV;
+        inner_rv = -1;
+        g_nest = Nest{[] { inner_rv = nt->foreach(&inner, inner_dir); }, 1 + t.n / 2, false, &wc};
+    }
     int rv = t.foreach(&wc, dir);
+    g_nest.run = nullptr;
     const char *d = dir == CSTL_BINTREE_FOREACH_DIR_FWD ? "fwd" : "rev";
+    if (nested) {
+        CNT("class.walk.nested");
+        size_t in_order = 0;
+        for (auto &v : inner.v) if (v.ord == CSTL_BINTREE_VISIT_ORDER_MID || v.ord == CSTL_BINTREE_VISIT_ORDER_LEAF) in_order++;
+        CHECK(g_nest.done && inner_rv == 0 && !inner.overflow && in_order == t.n, "C01.walk.nested",
+              "%s a walk started from inside a visit of another walk presented %zu of %zu elements and returned %d", t.tag, in_order, t.n, inner_rv);
+    }
     CHECK(!wc.overflow, "C01.walk.count", "%s %s walk makes more than %zu visits for %zu elements", t.tag, d, wc.limit, t.n);
     CHECK(rv == 0, "C01.walk.ret", "%s %s walk returned %d although no visit asked to stop", t.tag, d, rv);
     std::vector<const Elem *> stack, inorder;
